@@ -6,6 +6,7 @@ package main
 import (
 	"fmt"
 	"go/token"
+	"go/types"
 	"sort"
 	"strings"
 
@@ -295,4 +296,150 @@ func frozenSetFromOwnFlag(c *Ctx, e *Env, st *ssa.Store, entryReg Registration) 
 		return "the Frozen field of the encoded flags is never assigned", false
 	}
 	return "Frozen := " + want + " (true for ESDTFreeze, false for ESDTUnFreeze in the factory), then encoded", true
+}
+
+// c03r8: "roles … change only through calls whose caller is the system contract" — and they do change then: a role list
+// that was marshalled for storage is written on every successful path (a writer that skips the write for a list that
+// serialises to nothing leaves the revoked roles in storage: with the production encoder the empty list is zero bytes).
+func c03r8(c *Ctx) {
+	const rule = "C03-R8"
+	c.Rule(rule, "a role list marshalled for storage is written on every successful path (a revocation that empties the list is persisted)", 1)
+	n := 0
+	for _, fn := range c.P.Funcs {
+		if !c.P.InPkgs(fn, "builtInFunctions") || len(fn.Blocks) == 0 {
+			continue
+		}
+		for _, b := range fn.Blocks {
+			for _, in := range b.Instrs {
+				call, ok := in.(*ssa.Call)
+				if !ok || InvokeName(call) != "Marshalizer.Marshal" {
+					continue
+				}
+				mi, ok := call.Call.Args[0].(*ssa.MakeInterface)
+				if !ok || !strings.HasSuffix(mi.X.Type().String(), "esdt.ESDTRoles") {
+					continue
+				}
+				n++
+				// the writes of the marshalled bytes
+				bar := map[ssa.Instruction]bool{}
+				for _, b2 := range fn.Blocks {
+					for _, in2 := range b2.Instrs {
+						ci, ok := in2.(ssa.CallInstruction)
+						if !ok || InvokeName(ci) != "AccountDataHandler.SaveKeyValue" {
+							continue
+						}
+						if ex, ok := ci.Common().Args[1].(*ssa.Extract); ok && ex.Tuple == ssa.Value(call) && ex.Index == 0 {
+							bar[in2] = true
+						}
+					}
+				}
+				construct := fn.Name() + ": Marshal(" + c.P.Env(fn).Term(mi.X) + ") is followed by its SaveKeyValue"
+				escaped := ""
+				for _, r := range returnsOf(fn) {
+					if lastIsError(fn) && !isSuccessReturn(r) {
+						continue
+					}
+					if reachesAvoiding(fn, call, r, bar, nil) {
+						escaped = c.P.InstrPos(r)
+					}
+				}
+				if len(bar) > 0 && escaped == "" {
+					c.OK(rule, FuncName(fn), construct, c.P.InstrPos(call), "every successful path from the encoding passes the write of the encoded list")
+				} else {
+					c.FailX(Oblig{Rule: rule, Func: FuncName(fn), Construct: construct, Pos: c.P.InstrPos(call), Kind: "violation",
+						Detail:   "the function can return success (" + escaped + ") after encoding the role list without writing it: the list in storage stays what it was — roles the system contract revoked (or handed over) keep working",
+						Expected: "SaveKeyValue(roleKey, encoded list) on every successful path, whatever the encoded length"})
+				}
+			}
+		}
+	}
+	if n == 0 {
+		c.Anchor(rule, "an encoding of a role list for storage")
+	}
+}
+
+// c03r9: positions looked up in a role list are used before anything is removed from it. A removal inside a loop at a
+// position that was collected in an earlier pass (a list of indexes filled before the loop) hits the wrong element as
+// soon as an earlier turn has shortened the list: a revoked role stays and an unrelated one is dropped.
+func c03r9(c *Ctx) {
+	const rule = "C03-R9"
+	c.Rule(rule, "a role is not removed at a position that was computed before an earlier removal of the same pass", 1)
+	n := 0
+	for _, fn := range c.P.Funcs {
+		if !c.P.InPkgs(fn, "builtInFunctions") || len(fn.Blocks) == 0 {
+			continue
+		}
+		for _, b := range fn.Blocks {
+			for _, in := range b.Instrs {
+				st, ok := in.(*ssa.Store)
+				if !ok {
+					continue
+				}
+				fa, ok := st.Addr.(*ssa.FieldAddr)
+				if !ok || fieldName(fa.X.Type(), fa.Field) != "Roles" {
+					continue
+				}
+				// a removal: the stored list is computed from the list itself and an index (re-slice, or a remover helper)
+				var idx ssa.Value
+				switch v := st.Val.(type) {
+				case *ssa.Call:
+					if sc := v.Call.StaticCallee(); sc != nil && len(sc.Blocks) > 0 && c.P.InPkgs(sc, "builtInFunctions") {
+						for _, a := range v.Call.Args {
+							if isInteger(a.Type()) {
+								idx = a
+							}
+						}
+					} else if bi, ok := v.Call.Value.(*ssa.Builtin); ok && bi.Name() == "append" {
+						if sl, ok := v.Call.Args[0].(*ssa.Slice); ok && sl.High != nil {
+							idx = sl.High
+						}
+					}
+				}
+				if idx == nil {
+					continue
+				}
+				// inside a loop?
+				inLoop := blockReaches2(st.Block(), st.Block())
+				if !inLoop {
+					continue
+				}
+				n++
+				construct := fn.Name() + ": removal from .Roles at " + c.P.Env(fn).Term(idx)
+				// where the index comes from: an element of a local list of positions that the loop does not write
+				stale := ""
+				if ld, ok := idx.(*ssa.UnOp); ok && ld.Op == token.MUL {
+					if ia, ok := ld.X.(*ssa.IndexAddr); ok {
+						if _, isInt := ia.X.Type().Underlying().(*types.Slice); isInt {
+							stale = "the position is read from the list " + c.P.Env(fn).Term(ia.X) + " that was filled before the removals began"
+						}
+					}
+				}
+				if ex, ok := idx.(*ssa.Extract); ok {
+					if nx, ok := ex.Tuple.(*ssa.Next); ok && !nx.IsString {
+						stale = "the position is an element of a list of positions ranged over while removing"
+					}
+				}
+				if stale == "" {
+					c.OK(rule, FuncName(fn), construct, c.P.InstrPos(st), "the position is computed in the same turn as the removal")
+				} else {
+					c.FailX(Oblig{Rule: rule, Func: FuncName(fn), Construct: construct, Pos: c.P.InstrPos(st), Kind: "violation",
+						Detail:   stale + ": after the first removal every later position is one too far — a role the system contract revoked stays in the list, and a role it did not name is dropped",
+						Expected: "look the role up again after each removal (or remove from the back)"})
+				}
+			}
+		}
+	}
+	if n == 0 {
+		c.Triv(rule, "-", "no removal from a role list inside a loop at a precomputed position", "-", "nothing to judge")
+	}
+}
+
+// blockReaches2: to is reachable from one of from's successors.
+func blockReaches2(from, to *ssa.BasicBlock) bool {
+	for _, s := range from.Succs {
+		if s == to || blockReaches(s, to, nil) {
+			return true
+		}
+	}
+	return false
 }
